@@ -204,6 +204,10 @@ Definition run (name : string) (a : val) : val :=
          match mcircuit_forward (circ_build (dL dInstr a0)) (dTab a1) (dL dZ a2) with
          | Some (t, res, lp) => VL [eTab t; eL VZ res; VZ lp]
          | None => errNone end
+  else if is name "mcirc_backward" then     (* program, state, record *)
+         eOptE eTab (mcircuit_backward (circ_build (dL dInstr a0)) (dTab a1) (dL dZ a2))
+  else if is name "postselect_m" then       (* state, pauli, res : the method-level postselect *)
+         match postselect (dTab a0) (dPauli a1) (dZ a2) with Some (t, pr) => VL [eTab t; VZ pr] | None => errNone end
   (* ---- parsing / printing ---- *)
   else if is name "parse" then eOptE ePauli (parse_tokens (dL dZ a0))
   else if is name "parse_dict" then eOptE ePauli (parse_dict (dN a0) (dL (fun v => (dZ (arg v 0), dZ (arg v 1))) a1))
